@@ -160,6 +160,10 @@ def func_results(res):
     return out
 
 
+import concurrent.futures as _cf
+_POOL = _cf.ThreadPoolExecutor(max_workers=8)
+
+
 def run_unit(name, features=None, variant=None, seed=0, canary=True, threads=8):
     """returns dict(status, failures, others, funcs, canary..., unit, paths)"""
     os.makedirs(BUILD, exist_ok=True)
@@ -173,6 +177,14 @@ def run_unit(name, features=None, variant=None, seed=0, canary=True, threads=8):
         base = u.name.replace("-", "_") + ("_s%d" % seed if seed else "")   # one file per (unit, seed): thorough runs seeds in parallel
         path = os.path.join(BUILD, base + ".rs")
         open(path, "w").write(text)
+        # the canary variant of the same extraction is verified concurrently (its result is only used when the main run is
+        # decided; if a function has to be stubbed both are redone)
+        cfut = None
+        if canary:
+            ctext, clinemap = u.generate(canary=True)
+            cpath = os.path.join(BUILD, base + "_canary.rs")
+            open(cpath, "w").write(ctext)
+            cfut = _POOL.submit(verus, cpath, seed, threads, [], 1)
         res = verus(path, seed, threads, extra)
         f0, o0 = classify(res, linemap)
         # compile-level problems inside an EXTRACTED function: stub that function (assumed contract) and retry, so
@@ -218,10 +230,7 @@ def run_unit(name, features=None, variant=None, seed=0, canary=True, threads=8):
     # canary variant
     result["canary"] = None
     if canary and result["status"] in ("ok", "failed"):
-        ctext, clinemap = u.generate(canary=True)
-        cpath = os.path.join(BUILD, base + "_canary.rs")
-        open(cpath, "w").write(ctext)
-        cres = verus(cpath, seed, threads, [], multiple_errors=1)
+        cres = cfut.result()
         cfuncs = func_results(cres)
         # every contracted function and every canary_* must FAIL
         must_fail = [f["item"] for f in u.functions if f.get("kind") == "fn" and f.get("has_contract")]
@@ -229,6 +238,10 @@ def run_unit(name, features=None, variant=None, seed=0, canary=True, threads=8):
         bad = []
         n_checked = 0
         cfail, cothers = classify(cres, clinemap)
+        # a canary that runs into its (small) resource limit is not provable either: counts as rejected
+        gaveup = [o for o in cothers if o.get("why") == "resource limit" and str(o.get("site_item") or "").startswith("canary:")]
+        cothers = [o for o in cothers if o not in gaveup]
+        cfail = cfail + gaveup
         if cothers or cres["json"] is None:
             result["status"] = "undecided"
             result["why"] = "canary file did not compile: " + (cothers[0]["message"][:200] if cothers else cres["stderr"][-300:])
